@@ -562,7 +562,7 @@ fn key_of(sc: &C30Scenario, class: &str, detail: &str) -> String {
 
 pub fn check(tier: &str) -> i32 {
     let seed = verif_seed();
-    let n: usize = std::env::var("VERIF_N").ok().and_then(|x| x.parse().ok()).unwrap_or(if tier == "thorough" { 2500 } else { 120 });
+    let n: usize = std::env::var("VERIF_N").ok().and_then(|x| x.parse().ok()).unwrap_or(if tier == "thorough" { 1200 } else { 120 });
     let start = std::time::Instant::now();
     println!("procsim C30 tier={tier} VERIF_SEED={seed} schedules={n}");
     let jobs = simcore::pool::workers();
